@@ -201,10 +201,12 @@ def main():
             if okb[1] != "1": endb_fail += 1
             # --- straight playback from the start: the first frame of every order gives the time playback really enters it
             if script and all(t.startswith("P") for t in script.split()):
-                seen = {}
+                seen = {}; elapsed = 0          # microseconds rendered so far: the sum of the frame times (the reported time field is re-read from the order table at every order)
                 for l in cl:
                     w = l.split()
-                    if w[0] == "F" and w[1] == "0" and len(w) >= 25 and int(w[19]) not in seen: seen[int(w[19])] = int(w[24])
+                    if w[0] == "F" and w[1] == "0" and len(w) >= 25:
+                        if int(w[19]) not in seen: seen[int(w[19])] = elapsed // 1000
+                        elapsed += int(w[24])
                 for o, t in sorted(seen.items()):
                     ck.count()
                     if o < len(hdr["time"]) and hdr["time"][o] >= 0 and abs(hdr["time"][o] - t) > 700:
